@@ -151,6 +151,8 @@ def _to_seq(self, a, kind):
     k = z3.Int(fresh_name('i'))
     self.assume(S.len(r) == it.length)
     self.assume(qforall([k], z3.Implies(z3.And(k >= 0, k < it.length), S.get(r, k) == it.at(k).t), patterns=[S.get(r, k)]))
+    # reverse-direction trigger: a fact about the k-th source element reaches r[k]
+    self.assume(qforall([k], z3.Implies(z3.And(k >= 0, k < it.length), S.get(r, k) == it.at(k).t), patterns=[it.at(k).t]))
     return self.new_box(SV(S, r)) if kind == 'list' else SV(S, r)
   raise OutsideSubset(f'{kind}({v!r})')
 
@@ -175,6 +177,11 @@ def b_dict(self, a, kw):
   v = self.deref(a[0]) if a else None
   if isinstance(v, SV) and isinstance(v.sort, MapOf) and not kw:
     return self.new_box(SV(v.sort, v.t))
+  if isinstance(v, SV) and isinstance(v.sort, Opaque) and not kw and not v.sort.is_str:
+    # dict(x) of a dict-like object modelled by identity: a NEW object (equal content, different identity)
+    r = self.fresh(v.sort, 'dict_copy')
+    self.assume(r.t != v.t)
+    return r
   raise OutsideSubset('dict(...) form')
 
 
@@ -505,6 +512,13 @@ def b_call_args(self, a, kw):
 def b_index_of(self, a, kw):
   """spec-level: first index of x in seq"""
   return seq_method(self, None, self.deref(a[0]), 'index', [a[1]])
+
+
+@H('allocated')
+def b_allocated(self, a, kw):
+  """spec-level: the object reference denotes a live (already allocated) object"""
+  v = self.deref(a[0])
+  return SV(BOOL, z3.Select(self.alloc_arr(v.sort), v.t))
 
 
 @H('other')
